@@ -54,7 +54,11 @@ def resolve_helper(prog, f, call, skip=()):
         if len(loc) == 1 and not loc[0].node.decorator_list and not (loc[0].node.args.vararg or loc[0].node.args.kwarg) and fn.id not in skip:
             return loc[0], False
         r = prog.resolve(f.mod, fn)
-        if r and r[0] == 'func' and r[1].mod is f.mod and r[1].cls is None and r[1].parent is None:
+        if r and r[0] == 'func' and r[1].cls is None and r[1].parent is None and (r[1].mod is f.mod or same_globals(prog, r[1], f.mod)):
+            callee = r[1]          # a private module-level function, possibly imported (every global it reads means the same here)
+    elif isinstance(fn, ast.Attribute) and isinstance(fn.value, ast.Name) and fn.value.id != 'self' and fn.value.id not in f.params:
+        r = prog.resolve(f.mod, fn)     # `base._helper(...)` through an imported module of the package
+        if r and r[0] == 'func' and r[1].cls is None and r[1].parent is None and r[1].mod is not f.mod and same_globals(prog, r[1], f.mod):
             callee = r[1]
     elif isinstance(fn, ast.Attribute) and isinstance(fn.value, ast.Name) and fn.value.id == 'self' and f.cls is not None:
         m = prog.resolve_method(f.cls, fn.attr)
@@ -230,10 +234,68 @@ class Inliner:
         return t.visit(node)
 
     # ---------------------------------------------------------------- statement helpers
-    def stmt_helper(self, st, depth):
+    # ---------------------------------------------------------------- generator helpers driven by a for loop
+    def gen_loop(self, st, depth):
+        """`for T in self._gen(args): BODY` with a private generator helper: the generator's body with every `yield v` replaced by
+        `T = v; BODY` - the interleaving a generator has with its consumer, written out.  Declined (None) whenever the two could
+        differ: break / continue / return / yield in BODY, an else clause, try / with / return-with-value / yield-as-expression in
+        the generator, an argument name that BODY rebinds."""
+        if depth <= 0 or st.orelse or not isinstance(st.iter, ast.Call):
+            return None
+        if any(isinstance(n, (ast.Break, ast.Continue, ast.Return, ast.Yield, ast.YieldFrom, ast.FunctionDef, ast.Lambda)) for b in st.body for n in ast.walk(b)):
+            return None
+        callee, is_method = resolve_helper(self.prog, self.f, st.iter, self.skip)
+        if callee is None:
+            return None
+        body = body_no_doc(callee.node)
+        yields = [n for s in body for n in ast.walk(s) if isinstance(n, ast.Yield)]
+        if not yields or len(yields) > 3:
+            return None
+        ystmts = [n for s in body for n in ast.walk(s) if isinstance(n, ast.Expr) and isinstance(n.value, ast.Yield)]
+        if len(ystmts) != len(yields):
+            return None
+        if any(isinstance(n, (ast.YieldFrom, ast.Try, ast.With, ast.Return, ast.Global, ast.Nonlocal, ast.FunctionDef, ast.ClassDef, ast.Lambda)) for s in body for n in ast.walk(s)):
+            return None
+        rebound_by_consumer = assigned_names(st.body) | assigned_names([ast.Assign(targets=[st.target], value=ast.Constant(value=None))])
+        if any(isinstance(n, ast.Name) and n.id in rebound_by_consumer for a in list(st.iter.args) + [k.value for k in st.iter.keywords] for n in ast.walk(a)):
+            return None
+
+        class Y(ast.NodeTransformer):
+            def visit_Expr(self, n):
+                if isinstance(n.value, ast.Yield):
+                    v = n.value.value if n.value.value is not None else ast.Constant(value=None)
+                    return ast.copy_location(ast.Expr(value=ast.Call(func=ast.Name(id='__yield__', ctx=ast.Load()), args=[v], keywords=[])), n)
+                return n
+        marked = [Y().visit(copy.deepcopy(s)) for s in body]
+        out = self.stmt_helper(ast.copy_location(ast.Expr(value=st.iter), st), depth, forced=(callee, is_method, marked))
+        if out is None:
+            return None
+        me = self
+
+        def put(stmts):
+            res = []
+            for s in stmts:
+                if isinstance(s, ast.Expr) and isinstance(s.value, ast.Call) and isinstance(s.value.func, ast.Name) and s.value.func.id == '__yield__':
+                    a = ast.Assign(targets=[copy.deepcopy(st.target)], value=s.value.args[0])
+                    ast.copy_location(a, st)
+                    ast.fix_missing_locations(a)
+                    res.append(a)
+                    res.extend(me.block(copy.deepcopy(st.body), depth))
+                    continue
+                for field in ('body', 'orelse', 'finalbody'):
+                    blk = getattr(s, field, None)
+                    if isinstance(blk, list) and blk and isinstance(blk[0], ast.stmt):
+                        setattr(s, field, put(blk))
+                res.append(s)
+            return res
+        return put(out)
+
+    def stmt_helper(self, st, depth, forced=None):
         """-> list of statements replacing st, or None"""
         if depth <= 0:
             return None
+        if isinstance(st, ast.For) and forced is None:
+            return self.gen_loop(st, depth)
         call, target, is_ret = None, None, False
         if isinstance(st, ast.Expr) and isinstance(st.value, ast.Call):
             call = st.value
@@ -243,10 +305,13 @@ class Inliner:
             call, is_ret = st.value, True
         if call is None:
             return None
-        callee, is_method = resolve_helper(self.prog, self.f, call, self.skip)
-        if callee is None:
-            return None
-        body = body_no_doc(callee.node)
+        if forced is not None:
+            callee, is_method, body = forced
+        else:
+            callee, is_method = resolve_helper(self.prog, self.f, call, self.skip)
+            if callee is None:
+                return None
+            body = body_no_doc(callee.node)
         if not body:
             return None
         rets = [n for s in body for n in ast.walk(s) if isinstance(n, ast.Return)]
@@ -299,7 +364,13 @@ class Inliner:
             if is_ret:
                 out.append(ast.Return(value=val))
             elif target is not None:
-                if not (isinstance(target, ast.Name) and isinstance(val, ast.Name) and val.id == target.id):
+                if isinstance(target, ast.Tuple) and isinstance(val, ast.Tuple) and len(target.elts) == len(val.elts) \
+                        and all(isinstance(t_, ast.Name) for t_ in target.elts) and all(isinstance(v_, ast.Name) for v_ in val.elts) \
+                        and not ({t_.id for t_ in target.elts} & {v_.id for v_ in val.elts}):
+                    # `a, b = helper()` with `return x, y`: two plain bindings (no name is both read and written)
+                    for t_, v_ in zip(target.elts, val.elts):
+                        out.append(ast.Assign(targets=[copy.deepcopy(t_)], value=v_))
+                elif not (isinstance(target, ast.Name) and isinstance(val, ast.Name) and val.id == target.id):
                     out.append(ast.Assign(targets=[copy.deepcopy(target)], value=val))
             # call used as a statement: value dropped
         elif target is not None:
@@ -354,9 +425,17 @@ def inlined(prog, f, depth=2, skip=()):
     k = (f.key, id(f.node), depth, tuple(sorted(skip)))
     if k in _cache:
         return _cache[k]
-    inl = Inliner(prog, f, depth, skip)
+    from . import normalize as _nz            # read-only single-return properties are expanded first (derived quantities)
+    pre = _nz.expand_properties(prog, f, copy.deepcopy(f.node))
+    props = norm(pre) != norm(f.node)
+    if props:
+        f_ = copy.copy(f)
+        f_.node = pre
+    else:
+        f_ = f
+    inl = Inliner(prog, f_, depth, skip)
     node = inl.run()
-    if not inl.inlined:
+    if not inl.inlined and not props:
         _cache[k] = f
         return f
     g = copy.copy(f)
